@@ -1,0 +1,10 @@
+//go:build verif
+// +build verif
+
+package sourcemap
+
+// Exports for the /verif correspondence harness (build tag "verif" only).
+
+func VerifEncodeVLQ(encoded []byte, value int) []byte { return encodeVLQ(encoded, value) }
+
+func VerifBase64() []byte { return base64 }
